@@ -98,9 +98,10 @@ def run(chk: common.Check):
                     break
         # ---- hash seeds (multi-conformation, multi-chain inputs; display mode)
         multi = two_model_three_chain()
-        for name, job in (("two models x three chains", {"text": multi, "opts": []}), ("1HPX -d", J["C"])) + ((("4DFR", J["H"]),) if chk.thorough else ()):
+        ftj_d = {"text": structures.read("1FTJ-Chain-A.pdb"), "opts": ["-d"]}      # a coupled system of three groups in display mode
+        for name, job in (("two models x three chains", {"text": multi, "opts": []}), ("1HPX -d", J["C"]), ("1FTJ-Chain-A -d", ftj_d)) + ((("4DFR", J["H"]),) if chk.thorough else ()):
             ref = None
-            for seed in (["0", "1", "2", "3", "17", "random"] if chk.thorough else ["0", "1", "2", "7"]):
+            for seed in (["0", "1", "2", "3", "4", "5", "17", "random"] if chk.thorough else ["0", "1", "2", "3", "5"]):
                 r = run_jobs([job], seed=seed)[0]
                 chk.count(1, key=("hashseed", name, seed))
                 if ref is None:
@@ -116,6 +117,8 @@ def run(chk: common.Check):
         pth = os.path.join(d1, "x.pdb")
         open(pth, "w").write(sub)
         variants = [("stream", {"text": sub, "opts": [], "name": "x.pdb"}, None), ("path", {"mode": "path", "path": pth, "opts": []}, None),
+                    ("the same stream object used for a second run", {"mode": "stream-reused", "text": sub, "opts": [], "name": "x.pdb"}, None),
+                    ("a stream the caller has already read to its end", {"mode": "stream-read-before", "text": sub, "opts": [], "name": "x.pdb"}, None),
                     ("path, other cwd", {"mode": "path", "path": pth, "opts": []}, d2), ("relative path", {"mode": "path", "path": "x.pdb", "opts": [], "cwd": d1}, None)]
         ref = None
         for what, job, cwd in variants:
